@@ -5,7 +5,7 @@ from pyvc.values import qforall
 
 from .values import (V, Int, Str, Bool, SeqV, SeqS, NONE, ABSENT, TRUE, FALSE, mk_bool, mk_int, mk_str,
                      mk_seq, mk_list, mk_tuple, truthy, clsof, keys_of, EMPTY_MAP, EMPTY_SEQ, EMPTY_SET,
-                     pystr, py_eq)
+                     pystr, py_eq, str_ok)
 from .state import (St, Unsupported, Static, SFunc, SClass, SBound, SModule, SExt, SConst, SIter, ExcVal)
 from .expr import ok, exc
 
@@ -131,7 +131,14 @@ class BuiltinMixin:
                     out.extend(self.call_method(x, v, c, '__str__', [], {}))
                 if rest2 is None:
                     return out
-        out.append((rest2, 'ok', V.str(pystr(self.val(rest2, v)))))
+        # a plain value: str() succeeds unless it has to write an integer beyond the interpreter's digit limit
+        pv = self.val(rest2, v)
+        rest2.assume(z3.Implies(z3.Or(pv == NONE, V.is_bool(pv), V.is_float(pv), V.is_str(pv)), str_ok(pv)))
+        good, bad = self.split(rest2, str_ok(pv))
+        if good is not None:
+            out.append((good, 'ok', V.str(pystr(pv))))
+        if bad is not None:
+            out.extend(exc(bad, 'ValueError'))
         return out
 
     def b_str(self, n, st):
